@@ -163,6 +163,45 @@ func init() {
 				c.Run.Sample(map[string]any{"host": h, "registrable_domain": refDomain(h), "urls": []string{"https://" + h + c17Tails[3], "ws://" + h + c17Tails[5]}})
 			}
 		})
+		// histories on one reused Request object (the DNS engine's pool path): every
+		// ordered pair and a diagonal of triples over a host set
+		reuse := []string{"co.uk", "uk", "example.co.uk", "shop.example.co.uk", "www.ck", "foo.ck", "www.bar.foo.ck", "bar.foo.ck", "kobe.jp", "city.kobe.jp", "a.city.kobe.jp",
+			"x.kobe.jp", "a.x.kobe.jp", "github.io", "user.github.io", "a.user.github.io", "io", "amazonaws.com", "s3.amazonaws.com", "bucket.s3.amazonaws.com", "com", "example.com",
+			"www.example.com", "localhost", "db.localhost", "local", "example.local", "a.example.local", "1.2.3.4", "4", "3.4", "blogspot.com", "a.blogspot.com", "example", "a.example", "EXAMPLE.COM", "www.EXAMPLE.com"}
+		fresh := map[string]rules.Request{}
+		for _, h := range reuse {
+			fresh[h] = *rules.NewRequestForHostname(h)
+		}
+		sameReq := func(a, b rules.Request) bool {
+			return a.URL == b.URL && a.URLLowerCase == b.URLLowerCase && a.Hostname == b.Hostname && a.Domain == b.Domain && a.RequestType == b.RequestType &&
+				a.ThirdParty == b.ThirdParty && a.IsHostnameRequest == b.IsHostnameRequest
+		}
+		var reuseEvals int64
+		for _, h1 := range reuse {
+			for _, h2 := range reuse {
+				r := &rules.Request{}
+				rules.FillRequestForHostname(r, h1)
+				rules.FillRequestForHostname(r, h2)
+				reuseEvals++
+				if !sameReq(*r, fresh[h2]) {
+					c.Run.Violate(ev.Violation{Pred: "refilled-request-equals-fresh", Sig: map[string]any{"first": h1, "second": h2},
+						What: fmt.Sprintf("FillRequestForHostname(%q) on a request previously filled for %q gives Hostname=%q Domain=%q, a fresh request has Domain=%q", h2, h1, r.Hostname, r.Domain, fresh[h2].Domain), Replay: map[string]any{"url": "http://" + h2}})
+				}
+				for _, h3 := range []string{h1, reuse[(len(h1)+len(h2))%len(reuse)]} {
+					rules.FillRequestForHostname(r, h3)
+					reuseEvals++
+					if !sameReq(*r, fresh[h3]) {
+						c.Run.Violate(ev.Violation{Pred: "refilled-request-equals-fresh", Sig: map[string]any{"first": h1, "second": h2, "third": h3},
+							What: fmt.Sprintf("third refill for %q after %q, %q gives Domain=%q, fresh %q", h3, h1, h2, r.Domain, fresh[h3].Domain), Replay: map[string]any{"url": "http://" + h3}})
+					}
+					rules.FillRequestForHostname(r, h2)
+				}
+			}
+		}
+		cnt.mu.Lock()
+		cnt.evals += reuseEvals
+		cnt.mu.Unlock()
+		c.Run.Set("reused_request_histories", reuseEvals)
 		// length cap
 		for _, n := range []int{4095, 4096, 4097, 9000} {
 			for _, h := range []string{"example.com", "www.example.co.uk"} {
